@@ -123,24 +123,24 @@ theorem feedbackOf_ready {cfg : TagCfg} {s s' : Sim} {key : Bool × Nat} {k : RL
 
 /-- the simulator's own errors are never at a `U2` site -/
 theorem feedbackForStartTag_noU2 {cfg : TagCfg} {s : Sim} {t : Nat} {e : Err}
-    (h : s.feedbackForStartTag cfg t = .error e) : ¬ U2err e := by
+    (h : s.feedbackForStartTag cfg t = .error e) : ¬ U3err e := by
   rw [LolHtml.Lemmas.Sim.start_eq] at h
   rcases LolHtml.Lemmas.Sim.guardStart_cases cfg s t with ⟨g, hg⟩ | ⟨_, hg⟩
   · rw [hg] at h
     dsimp only at h
     unfold LolHtml.Lemmas.Sim.startCore at h
-    (repeat' split at h) <;> first | (cases h; done) | (simp only [Except.error.injEq] at h; subst h; simp [U2err, U2])
+    (repeat' split at h) <;> first | (cases h; done) | (simp only [Except.error.injEq] at h; subst h; simp [U3err, U2err, U2, guardSite])
   · rw [hg] at h
     simp only [Except.error.injEq] at h
     subst h
-    simp [U2err]
+    simp [U3err, U2err, guardSite]
 
 theorem feedbackForEndTag_noU2 {cfg : TagCfg} {s : Sim} {t : Nat} {e : Err}
-    (h : s.feedbackForEndTag cfg t = .error e) : ¬ U2err e := by
+    (h : s.feedbackForEndTag cfg t = .error e) : ¬ U3err e := by
   rw [LolHtml.Lemmas.Sim.end_eq] at h
   split at h
   · cases h
-  · simp only [Except.error.injEq] at h; subst h; simp [U2err, U2]
+  · simp only [Except.error.injEq] at h; subst h; simp [U3err, U2err, U2, guardSite]
 
 
 /-! ### the lexer's feedback handling -/
@@ -160,7 +160,7 @@ theorem tagViewFor_isStart {k : RLKind} {inp : Bytes} {tok : TagOutline} {v : Ta
 
 theorem lexGetFeedback_X {cfg : TagCfg} {sim : Sim} (hinv : Inv sim) (fd : FeedbackDirective) (tok : TagOutline)
     (hfd : ∀ k, fd = .applyUnhandled (.requestLexeme k) → CallbackReady sim k tok.isStart) :
-    (∀ e, lexGetFeedback cfg sim fd tok = .error e → ¬ U2err e) ∧
+    (∀ e, lexGetFeedback cfg sim fd tok = .error e → ¬ U3err e) ∧
     (∀ r, lexGetFeedback cfg sim fd tok = .ok r →
       Inv r.1 ∧ ∀ k, r.2 = some (.requestLexeme k) → CallbackReady r.1 k tok.isStart) := by
   unfold lexGetFeedback
@@ -211,14 +211,14 @@ theorem lexGetFeedback_X {cfg : TagCfg} {sim : Sim} (hinv : Inv sim) (fd : Feedb
 /-- `handle_tree_builder_feedback` on a ready simulator: no `U2` error, the simulator invariant kept -/
 theorem lexHandleFeedback_X (inp : Bytes) (c : Common) (sim : Sim) (f : Feedback) (o : TagOutline) (hi : Inv sim)
     (hr : ∀ k, f = .requestLexeme k → CallbackReady sim k o.isStart) :
-    (∀ e, lexHandleFeedback inp c sim f o = .error e → ¬ U2err e) ∧
+    (∀ e, lexHandleFeedback inp c sim f o = .error e → ¬ U3err e) ∧
     (∀ r, lexHandleFeedback inp c sim f o = .ok r → Inv r.2) := by
   have hsimple : ∀ (c : Common) (sim : Sim) (f : Feedback), Lemmas.Sim.Inv sim →
       (∀ e : Err, (match f with
         | .switchTextType t => (.ok ({ c with lastTextType := t }, sim) : Except Err (Common × Sim))
         | .setAllowCdata b => .ok ({ c with cdataAllowed := b }, sim)
         | .none => .ok (c, sim)
-        | .requestLexeme _ => .error (.panic "nested RequestLexeme")) = .error e → ¬ U2err e) ∧
+        | .requestLexeme _ => .error (.panic "nested RequestLexeme")) = .error e → ¬ U3err e) ∧
       (∀ r : Common × Sim, (match f with
         | .switchTextType t => (.ok ({ c with lastTextType := t }, sim) : Except Err (Common × Sim))
         | .setAllowCdata b => .ok ({ c with cdataAllowed := b }, sim)
@@ -230,7 +230,7 @@ theorem lexHandleFeedback_X (inp : Bytes) (c : Common) (sim : Sim) (f : Feedback
     all_goals first
       | (cases h; done)
       | (simp only [Except.ok.injEq] at h; subst h; exact hi)
-      | (simp only [Except.error.injEq] at h; subst h; simp [U2err, U2])
+      | (simp only [Except.error.injEq] at h; subst h; simp [U3err, U2err, U2, guardSite])
   unfold lexHandleFeedback
   dsimp only
   cases f with
@@ -240,7 +240,7 @@ theorem lexHandleFeedback_X (inp : Bytes) (c : Common) (sim : Sim) (f : Feedback
     cases hv : tagViewFor k inp o with
     | none =>
       refine ⟨fun e h => ?_, fun r h => by cases h⟩
-      simp only [Except.error.injEq] at h; subst h; simp [U2err, U2]
+      simp only [Except.error.injEq] at h; subst h; simp [U3err, U2err, U2, guardSite]
     | some v =>
       have hvs := tagViewFor_isStart hv
       dsimp only
@@ -287,7 +287,7 @@ theorem scanEmitHint_X (hx : XLaws env.ops inp Pend Good K Uerr) (c : Common) (s
     SigPost Uerr (ScanX Pend Good ab) (ScanJ Good) (scanEmitHint env inp c s x ts iet) := by
   unfold scanEmitHint
   split
-  · exact hx.noU (by simp [U2err, U2])
+  · exact hx.noU (by simp [U3err, U2err, U2, guardSite])
   · rename_i name _
     dsimp only
     cases iet with
@@ -315,12 +315,12 @@ theorem scanFinishTagName_X (hx : XLaws env.ops inp Pend Good K Uerr) (c : Commo
     SigPost Uerr (ScanX Pend Good ab) (ScanJ Good) (scanFinishTagName env inp c s x) := by
   unfold scanFinishTagName
   split
-  · exact hx.noU (by simp [U2err, U2])
+  · exact hx.noU (by simp [U3err, U2err, U2, guardSite])
   · rename_i ts _
     dsimp only
     have hfb : ∀ r, (if s.isInEndTag = true then x.sim.feedbackForEndTag env.cfg s.tagNameHash
         else x.sim.feedbackForStartTag env.cfg s.tagNameHash) = r →
-        (∀ e, r = .error e → ¬ U2err e) ∧ (∀ v, r = .ok v → Lemmas.Sim.Inv v.1) := by
+        (∀ e, r = .error e → ¬ U3err e) ∧ (∀ v, r = .ok v → Lemmas.Sim.Inv v.1) := by
       intro r hr
       subst hr
       cases s.isInEndTag with
@@ -521,7 +521,7 @@ theorem lexEmitTag_L (hx : XLaws env.ops inp Pend Good K Uerr) (c : Common) (l :
   obtain ⟨hg, hi, hmode⟩ := h
   unfold lexEmitTag
   cases hct : l.curTag with
-  | none => exact hx.noU (by simp [U2err, U2])
+  | none => exact hx.noU (by simp [U3err, U2err, U2, guardSite])
   | some tok =>
     dsimp only
     have hfd : ∀ k, l.fd = .applyUnhandled (.requestLexeme k) → CallbackReady x.sim k tok.isStart := by
@@ -688,7 +688,7 @@ theorem lex_phinv (hx : XLaws env.ops inp Pend Good K Uerr) : PhInv env inp Uerr
         have hab : ab ≠ .inTag := by intro hh; subst hh; simp [phAct] at hp
         cases hct : l.curTag with
         | some t => exact ⟨c, _, x, rfl, h.out hab⟩
-        | none => exact ⟨hx.noU (by simp [U2err, U2]), fun hh => by simp [silentAct] at hh⟩
+        | none => exact ⟨hx.noU (by simp [U3err, U2err, U2, guardSite]), fun hh => by simp [silentAct] at hh⟩
       case updateTagNameHash =>
         have hab : ab ≠ .inTag := by intro hh; subst hh; simp [phAct] at hp
         cases hb : inp[c.pos]? with
@@ -696,7 +696,7 @@ theorem lex_phinv (hx : XLaws env.ops inp Pend Good K Uerr) : PhInv env inp Uerr
         | some ch =>
           cases hct : l.curTag with
           | some t => exact ⟨c, _, x, rfl, h.out hab⟩
-          | none => exact ⟨hx.noU (by simp [U2err, U2]), fun _ => ⟨c, _, x, rfl, h.out hab⟩⟩
+          | none => exact ⟨hx.noU (by simp [U3err, U2err, U2, guardSite]), fun _ => ⟨c, _, x, rfl, h.out hab⟩⟩
 
 end
 
